@@ -26,3 +26,26 @@ A(M("r7-centers-cached-behind-property", "C04", TT, "    @cached_property\n    d
 SET = [("    pairs = []\n", "    pairs = set()\n")] + [(f'pairs.append(({a}, {b}, "{t}"))', f'pairs.add(({a}, {b}, "{t}"))') for a, b, t in (("residue_i", "residue_j", "upward"), ("residue_i", "residue_j", "inward"), ("residue_j", "residue_i", "downward"), ("residue_j", "residue_i", "outward"))]
 A(M("r7-stackings-in-set", "C11", AN, None, None, "sorted-emission", edits=SET))
 A(M("r7-stackings-list-call-silent", ["C11", "C04"], AN, "    pairs = []\n", "    pairs = list()\n", kind="silent"))
+
+# ---- C04-r10: the pair loop lives in a generator helper consumed once by find_stackings (read as the loop it stands for)
+B410 = dict(base="C04-r10")
+A(M("r7-gen-orientation-lost", ["C04", "C11"], AN, "            else (residue_j, residue_i, topology)\n", "            else (residue_i, residue_j, topology)\n", None, **B410))
+A(M("r7-gen-labels-swapped", "C04", AN, '    (True, False): "inward",\n    (False, True): "downward",\n', '    (True, False): "downward",\n    (False, True): "inward",\n', "stack-labels", **B410))
+A(M("r7-gen-normal-angle-unit", "C04", AN, "    if math.degrees(angle) > STACKING_MAX_ANGLE_BETWEEN_NORMALS:\n        return False\n", "    if angle > STACKING_MAX_ANGLE_BETWEEN_NORMALS:\n        return False\n", None, **B410))
+A(M("r7-gen-unsorted", ["C04", "C11"], AN, "    pairs = sorted(generate_stacked_pairs(coordinates, coordinates_residue_map))\n", "    pairs = list(generate_stacked_pairs(coordinates, coordinates_residue_map))\n", None, **B410))
+A(M("r7-gen-order-test-silent", ["C04", "C11"], AN, "        in_order = bool(residue_i < residue_j)\n", "        in_order = residue_i < residue_j\n", kind="silent", **B410))
+
+# ---- C03-r10: the label loop lives in a generator helper whose sequence a second (inlined) helper counts
+B310 = dict(base="C03-r10")
+A(M("r7-gen-edges-not-swapped", "C03", AN, "                yield residue_j, residue_i, cis_trans, edge_j, edge_i\n", "                yield residue_j, residue_i, cis_trans, edge_i, edge_j\n", None, **B310))
+A(M("r7-gen-residues-not-swapped", ["C03", "C11"], AN, "                yield residue_j, residue_i, cis_trans, edge_j, edge_i\n", "                yield residue_i, residue_j, cis_trans, edge_j, edge_i\n", None, **B310))
+A(M("r7-gen-single-bond-pair", "C03", AN, "        if hydrogen_bond_count < 2:\n", "        if hydrogen_bond_count < 1:\n", None, **B310))
+A(M("r7-gen-occupied-one-side", "C03", AN, "        occupied.update(sides)\n", "        occupied.update(sides[:1])\n", None, **B310))
+A(M("r7-gen-none-test-order-silent", ["C03", "C11"], AN, "        if edges_i is None or edges_j is None:\n", "        if edges_j is None or edges_i is None:\n", kind="silent", **B310))
+
+# ---- C03-r11: dispatch tables keyed by the test `one_letter_name in "AG"` read like the branch they replace
+B311 = dict(base="C03-r11")
+A(M("r7-table-plane-atoms-order", ["C03", "C04"], TT, '    True: ("N9", "N7", "N3"),\n', '    True: ("N9", "N3", "N7"),\n', "base-normal", **B311))
+A(M("r7-table-plane-atoms-pyrimidine", ["C03", "C04"], TT, '    False: ("N1", "C4", "O2"),\n', '    False: ("N1", "C2", "O2"),\n', "base-normal", **B311))
+A(M("r7-table-glycosidic-swapped", ["C03", "C18"], AN, 'GLYCOSIDIC_NITROGEN = {True: "N9", False: "N1"}', 'GLYCOSIDIC_NITROGEN = {True: "N1", False: "N9"}', "cis-trans-atoms", **B311))
+A(M("r7-table-key-order-silent", ["C03", "C18"], AN, 'GLYCOSIDIC_NITROGEN = {True: "N9", False: "N1"}', 'GLYCOSIDIC_NITROGEN = {False: "N1", True: "N9"}', kind="silent", **B311))
